@@ -105,6 +105,7 @@ type M struct {
 	shard    int
 	inShard  int
 	raw      bool // accessor available
+	prefix   string
 }
 
 func newMachine(dir, prop string, seed int64, ne, ns int) *M {
@@ -120,7 +121,7 @@ func (m *M) openShard() {
 		m.w.Flush()
 	}
 	m.shard++
-	name := fmt.Sprintf("%s/trace_%03d.ndjson", m.dir, m.shard)
+	name := fmt.Sprintf("%s/trace_%s%03d.ndjson", m.dir, m.prefix, m.shard)
 	f, err := os.Create(name)
 	if err != nil {
 		panic(err)
